@@ -1003,6 +1003,25 @@ func (s *Sim) doCall(rc *runCtx, it workItem, st *State, call ssa.CallInstructio
 	if mc, ok := call.Common().Value.(*ssa.MakeClosure); ok {
 		callee, _ = mc.Fn.(*ssa.Function)
 	}
+	if callee == nil && !call.Common().IsInvoke() {
+		// a function value looked up in a package-level dispatch table (map literal of functions):
+		// the call is explored once per possible entry (exactly one when the key is known)
+		if cands := s.p.tableCallees(call, func(v ssa.Value) AV { return s.eval(st, v) }); len(cands) > 0 {
+			var outs []*State
+			for i, c := range cands {
+				ns := st
+				if i < len(cands)-1 {
+					ns = st.clone()
+				}
+				outs = append(outs, s.doCallTo(rc, it, ns, call, c)...)
+			}
+			return outs
+		}
+	}
+	return s.doCallTo(rc, it, st, call, callee)
+}
+
+func (s *Sim) doCallTo(rc *runCtx, it workItem, st *State, call ssa.CallInstruction, callee *ssa.Function) []*State {
 	var effs []string
 	if s.Effect != nil {
 		effs = s.Effect(call, callee)
@@ -1449,4 +1468,155 @@ func (p *Prog) constMapLiteral(g *ssa.Global) (map[string]constant.Value, bool) 
 	}
 	constMapCache[g] = out
 	return out, true
+}
+
+
+// funcMapLiteral returns the entries of a package-level `map[K]func(...)...{...}` literal (a
+// dispatch table), keyed by the exact string of the constant key; nil when g is not such a table
+// or is written outside the package initialiser.
+var funcMapCache = map[*ssa.Global]map[string]*ssa.Function{}
+
+func (p *Prog) funcMapLiteral(g *ssa.Global) map[string]*ssa.Function {
+	if t, ok := funcMapCache[g]; ok {
+		return t
+	}
+	funcMapCache[g] = nil
+	if g.Pkg == nil || !strings.HasPrefix(g.Pkg.Pkg.Path(), modPath) {
+		return nil
+	}
+	mt, ok := g.Type().Underlying().(*types.Pointer).Elem().Underlying().(*types.Map)
+	if !ok {
+		return nil
+	}
+	if _, isFn := mt.Elem().Underlying().(*types.Signature); !isFn {
+		return nil
+	}
+	init := g.Pkg.Func("init")
+	if init == nil {
+		return nil
+	}
+	var mk ssa.Value
+	eachInstr(init, func(in ssa.Instruction) {
+		if st, ok := in.(*ssa.Store); ok && st.Addr == ssa.Value(g) {
+			mk = st.Val
+		}
+	})
+	if _, ok := mk.(*ssa.MakeMap); !ok {
+		return nil
+	}
+	out := map[string]*ssa.Function{}
+	bad := false
+	eachInstr(init, func(in ssa.Instruction) {
+		mu, ok := in.(*ssa.MapUpdate)
+		if !ok || mu.Map != mk {
+			return
+		}
+		k, ok := mu.Key.(*ssa.Const)
+		if !ok || k.Value == nil {
+			bad = true
+			return
+		}
+		var f *ssa.Function
+		v := mu.Value
+		for {
+			if ct, ok := v.(*ssa.ChangeType); ok {
+				v = ct.X
+				continue
+			}
+			break
+		}
+		switch x := v.(type) {
+		case *ssa.Function:
+			f = x
+		case *ssa.MakeClosure:
+			f, _ = x.Fn.(*ssa.Function)
+		}
+		if f == nil {
+			bad = true
+			return
+		}
+		out[k.Value.ExactString()] = f
+	})
+	if bad || len(out) == 0 {
+		return nil
+	}
+	for fn := range p.Funcs {
+		if fn.Pkg != g.Pkg || fn.Blocks == nil || fn == init {
+			continue
+		}
+		eachInstr(fn, func(in ssa.Instruction) {
+			if mu, ok := in.(*ssa.MapUpdate); ok {
+				if ld, ok := mu.Map.(*ssa.UnOp); ok && ld.X == ssa.Value(g) {
+					bad = true
+				}
+			}
+			if st, ok := in.(*ssa.Store); ok && st.Addr == ssa.Value(g) {
+				bad = true
+			}
+			if c, ok := in.(ssa.CallInstruction); ok {
+				if b, ok := c.Common().Value.(*ssa.Builtin); ok && b.Name() == "delete" {
+					if ld, ok := c.Common().Args[0].(*ssa.UnOp); ok && ld.X == ssa.Value(g) {
+						bad = true
+					}
+				}
+			}
+		})
+	}
+	if bad {
+		return nil
+	}
+	funcMapCache[g] = out
+	return out
+}
+
+// tableLookupOf: v is (the value part of) a lookup in a package-level dispatch table; returns the
+// table and the key operand.
+func (p *Prog) tableLookupOf(v ssa.Value) (map[string]*ssa.Function, ssa.Value) {
+	if ex, ok := v.(*ssa.Extract); ok && ex.Index == 0 {
+		v = ex.Tuple
+	}
+	lk, ok := v.(*ssa.Lookup)
+	if !ok {
+		return nil, nil
+	}
+	ld, ok := lk.X.(*ssa.UnOp)
+	if !ok || ld.Op != token.MUL {
+		return nil, nil
+	}
+	g, ok := ld.X.(*ssa.Global)
+	if !ok {
+		return nil, nil
+	}
+	t := p.funcMapLiteral(g)
+	if t == nil {
+		return nil, nil
+	}
+	return t, lk.Index
+}
+
+// tableCallees: the functions a dynamic call may reach when its function value comes out of a
+// dispatch table; eval gives the abstract value of the key (exact entry when it is a constant).
+func (p *Prog) tableCallees(call ssa.CallInstruction, eval func(ssa.Value) AV) []*ssa.Function {
+	t, key := p.tableLookupOf(call.Common().Value)
+	if t == nil {
+		return nil
+	}
+	if eval != nil {
+		if a := eval(key); a.K == avConst && a.C != nil {
+			if f, ok := t[a.C.ExactString()]; ok {
+				return []*ssa.Function{f}
+			}
+			return nil
+		}
+	}
+	var keys []string
+	for k := range t {
+		keys = append(keys, k)
+	}
+	sort.Strings(keys)
+	var out []*ssa.Function
+	for _, k := range keys {
+		out = append(out, t[k])
+	}
+	return out
 }
